@@ -680,14 +680,22 @@ def check_definite_assignment(ctx):
         pending = []
         for p in ps:
             bound = set(params)
+            handlers = []       # handlers entered on the path and not yet left
             for e in p.ev:
                 k = e[0]
+                # Python 3 unbinds the `as` name of a handler when the handler is left
+                if handlers and len(e) > 1 and isinstance(e[1], ast.AST):
+                    anc = set(map(id, A.ancestors(e[1]))) | {id(e[1])}
+                    while handlers and id(handlers[-1]) not in anc:
+                        h = handlers.pop()
+                        bound.discard(h.name)
                 if k == "def":
                     bound.add(e[1].name)
                     continue
                 if k == "exc":
                     if e[1].name:
                         bound.add(e[1].name)
+                        handlers.append(e[1])
                     continue
                 if k in ("stmt", "partial", "cond"):
                     nodes = [e[1]]
@@ -764,6 +772,8 @@ def check(ctx):
 
 VARIANTS = [
     M("all-exports-try-only-name", "lena/output/__init__.py", "    'iterable_to_table', 'ToCSV', 'hist1d_to_csv', 'hist2d_to_csv',\n    'RenderLaTeX'\n]", "    'iterable_to_table', 'ToCSV', 'hist1d_to_csv', 'hist2d_to_csv',\n    'jinja_syntax_latex',\n]", ["C20-a"]),
+    M("handler-name-used-after-handler", "lena/flow/selectors.py", "            res = self._predicate(subcontext)\n        except Exception as err:  # pylint: disable=broad-except\n            if self._raise_on_error:\n                raise err\n            return False\n        else:\n            return res",
+      "            return self._predicate(subcontext)\n        except Exception as err:  # pylint: disable=broad-except\n            if not self._raise_on_error:\n                return False\n        raise err", ["C20-g"]),
     M("slice-before-guard", "lena/core/fill_compute_seq.py", "        if fc_el is None:", "        after_probe = seq[ind+1:]\n        if fc_el is None:", ["C20-g"]),
     M("name-bound-in-one-branch", "lena/flow/elements.py", "        self.count += 1\n        data, context = lena.flow.get_data_context(value)", "        self.count += 1\n        if self.count:\n            data, context = lena.flow.get_data_context(value)", ["C20-g"]),
     M("all-lists-missing-name", "lena/flow/__init__.py", "'Cache',", "'Cache', 'CacheX',", ["C20-a"]),
